@@ -30,6 +30,7 @@ def run(ctx):
         inherit(ctx, vb[0])
     vtype(ctx)
     inject(ctx)
+    hierarchy(ctx)
 
 
 # ------------------------------------------------------------------------------------------------
@@ -426,3 +427,76 @@ def inject(ctx):
                 fs = op['text']
     ctx.ob(['C07'], 'R-SLP', 'C07|forwarding-body', okb and len(ren) == 1 and fs is not None,
            'an injected function forwards to field <base field>.<original name>; on a name clash it is renamed `<base>_<name>` (format %s)' % fs, loc(cf.span))
+
+
+# ------------------------------------------------------------------------------------------------
+def hierarchy(ctx):
+    """C07-D3: dfs_hierarchy lists every transitive base with its field path: every is_base region that resolves
+    contributes (path, type) and is descended into, whatever its siblings are"""
+    P = ctx.prog
+    fs = [f for f in P.fns.values() if f.kind != 'Closure' and f.raw.get('inputs') and f.raw['inputs'][0] == '&semantic::type_definition::TypeDefinition'
+          and 'Vec<(std::vec::Vec<std::string::String>, semantic::types::Type)>' in f.raw.get('output', '')]
+    if len(fs) != 1:
+        ctx.fail_closed(['C07'], 'R-ANCHOR', 'DFS', 'expected one hierarchy walker (&TypeDefinition, ..) -> Result<Vec<(Vec<String>, Type)>>, found %s' % [f.id for f in fs])
+        return
+    f = fs[0]
+    where = loc(f.span)
+    Ls = f.loops()
+    main = None
+    for L in Ls:
+        sty, src = loop_source(f, L)
+        if sty == "std::slice::Iter<'_, semantic::type_definition::Region>":
+            main = (L, src)
+    if not main:
+        ctx.fail_closed(['C07'], 'R-ITER', 'DFS|loop', 'no loop over the regions of the type', where)
+        return
+    L, src = main
+    h, body, _ = L
+    over_self = any(strip(x) == ('field', ('arg', 1, f.names.get(1, '_1')), 'regions') for x in walk(src)) and not any(
+        re.search(r'Iterator::(rev|skip|take|filter|step_by|chain)$', c_[3]) for c_ in calls_in(src))
+    pushes = [c for c in f.calls(lambda r: r['block'] in body and r['path'] and r['path'].endswith('Vec::<T, A>::push'))]
+    recs = [c for c in f.calls(lambda r: r['block'] in body and r['path'] == f.id)]
+    ext = [c for c in f.calls(lambda r: r['block'] in body and r['gpath'] and r['gpath'].endswith('Extend::extend'))]
+    ok_sites = len(pushes) == 1 and len(recs) == 1 and len(ext) == 1
+    ctx.ob(['C07'], 'R-ITER', 'DFS|all-regions', over_self and ok_sites, 'the walker loops over all regions of the type (unadapted) with one push of (path, type), one recursive descent and one extend', where)
+    if not ok_sites:
+        return
+    # allowed ways round: the region is not a base; the base is not resolved yet
+    bypass = []
+    for s in f.switches():
+        if s['block'] not in body:
+            continue
+        c = strip(s['cond'])
+        if c[0] == 'field' and c[2] == 'is_base':
+            bypass += [(s['block'], tgt) for lab, tgt in s['edges'] if lab is False]
+        if c[0] == 'un' and c[1] == 'Not' and strip(c[2])[0] == 'field' and strip(c[2])[2] == 'is_base':
+            bypass += [(s['block'], tgt) for lab, tgt in s['edges'] if lab is True]
+        if s['cond'][0] == 'discr' and find_calls(s['cond'], 'get_region_name_and_type_definition') and not (s['cond'][1][0] == 'call' and s['cond'][1][3] == TRY_BRANCH):
+            bypass += [(s['block'], tgt) for lab, tgt in s['edges'] if lab == 'None']
+
+    def cycle_avoiding(block):
+        seen = set()
+        st = [(h, s_) for s_ in f.succ(h) if s_ in body]
+        while st:
+            a, x = st.pop()
+            if (a, x) in bypass or x == block:
+                continue
+            if x == h:
+                return True
+            if x in seen:
+                continue
+            seen.add(x)
+            for y in f.succ(x):
+                if y in body:
+                    st.append((x, y))
+        return False
+    ok = not cycle_avoiding(pushes[0]['block']) and not cycle_avoiding(recs[0]['block']) and not cycle_avoiding(ext[0]['block'])
+    ctx.ob(['C07'], 'R-DOM', 'DFS|every-base-listed-and-descended', ok,
+           'every base region that resolves is listed and descended into — the only ways round are `not a base` and `base not resolved yet` (no sibling-dependent skipping)', where)
+    # what is pushed: (path ++ [field name], the region's own type); the recursion gets the extended path
+    pe = f.expr_of_operand(pushes[0]['term']['args'][1])
+    okp = pe[0] == 'tuple' and len(pe[1]) == 2 and any(isinstance(x, tuple) and x[0] == 'field' and x[2] == 'type_ref' for x in walk(pe[1][1])) and \
+        bool(find_calls(expand(f, pe[1][0]), 'Iterator::chain'))
+    re_ = f.expr_of_call(recs[0]['term'])
+    okr = any(find_calls(expand(f, a), 'Iterator::chain') for a in re_[2][1:]) and bool(find_calls(re_[2][0], 'get_region_name_and_type_definition'))
+    ctx.ob(['C07'], 'R-SLP', 'DFS|path-and-type', okp and okr, 'listed entry = (path so far ++ this field, this region\'s type); the descent continues in the base\'s type definition with the extended path', where)
